@@ -502,7 +502,7 @@ def run(run):
                 "sequences refused-parse -> registration -> same parse; states = distinct bases and parser inputs" % ("; all pairs of top-level slots x 5 junk pairs on minimal bases" if th else "", "maximal" if th else "minimal", len(NAMES), DEPTHS))
     run.bound = {"junk_values": len(JUNK) + len(DEEP), "replacements": 2 if th else 1, "entry_points": 6, "bases": 2 * 77}
     run.assumptions += ["instances from the frozen spec model", "only JSON-decodable inputs; nesting that defeats json.loads itself is excluded (deep junk goes through dict forms only)"]
-    run.pmap(run_case, cases)
+    run.pmap(run_case, cases, order_independent=True)
     run.part.sample({"version": "2.1", "key": "observables:file", "label": "max", "slot": ["extensions"], "junk": "[1]", "allow_custom": False, "entry": "parse(dict)"})
     run.part.sample({"kind": "value", "value": {"type": "bundle", "objects": [None]}, "allow_custom": True})
     run.part.sample({"version": "2.0", "key": "objects:indicator", "label": "min", "slot": ["pattern"], "junk": "deep-list", "entry": "constructor"})
